@@ -19,7 +19,7 @@ GNext == \/ ((\E r \in Routes, t \in Targets : Change(r, t)) \/ NoEdit \/ Reread
 GSpec == GInit /\ [][GNext]_gvars
 
 Emit == (phase = "reread") =>
-          PrintT(<<"CASE", ToJson([bytes |-> Stream(Odd, names, after, seqMode, itemMode),
+          PrintT(<<"CASE", ToJson([source |-> src, bytes |-> Stream(src, Odd, names, after, seqMode, itemMode),
                                    seqMode |-> seqMode, itemMode |-> itemMode,
                                    route |-> route, target |-> scs, strategy |-> strat,
                                    before |-> Odd, names |-> names, after |-> after,
